@@ -166,8 +166,22 @@ EarlyPkgs(early) == IF early = <<>> THEN {} ELSE Reach({"e"}, early, 6)
 (* the collector's Scan over a sequence of packages (Collector.Scan is     *)
 (* called once per package, PrepareAllSources), functionally               *)
 (***************************************************************************)
-RECURSIVE ScanSeq(_, _, _)
-ScanSeq(rs, st, ps) == IF ps = <<>> THEN st ELSE ScanSeq(rs, AddAll(decls, st, Seeds(decls, rs, Head(ps))), Tail(ps))
+\* (written with FoldLeft, which TLC evaluates in Java with concrete values: TLC passes the arguments
+\* of RECURSIVE operators as lazy values and evaluates them again at every reference, which makes a
+\* recursion that threads a state exponential in its depth)
+ScanSeq(rs, st, ps) == FoldLeft(LAMBDA acc, p : AddAll(decls, acc, Seeds(decls, rs, p)), st, ps)
+\* Collector.Finish with every range visiting the keys present at its start in path order (the
+\* canonical resolution of the map order); the step operators are those of Instances.tla
+Fuel == [i \in 1..48 |-> i]
+DrainStep(st, p) ==
+  IF st.unproc[p] >= Len(st.sets[p]) THEN st
+  ELSE AddAll(decls, [st EXCEPT !.unproc[p] = @ + 1], ImplAdds(decls, st.sets[p][st.unproc[p] + 1]))
+BDrainPkg(st, p) == FoldLeft(LAMBDA acc, i : DrainStep(acc, p), st, Fuel)
+RoundStep(st) ==
+  IF \A p \in DOMAIN st.sets : st.unproc[p] >= Len(st.sets[p]) THEN st
+  ELSE FoldLeft(LAMBDA acc, p : BDrainPkg(acc, p), st, PkSeq(DOMAIN st.sets))
+BRounds(st, n) == FoldLeft(LAMBDA acc, i : RoundStep(acc), st, [i \in 1..n |-> i])
+Drained(st) == \A p \in DOMAIN st.sets : st.unproc[p] >= Len(st.sets[p])
 \* the roots as the seed visitor meets them: per package in file order; the earlier command's last
 AllRoots(fo, early) == Flat([q \in 1..Len(PkgSeq) |-> RootsSeq(PkgSeq[q], FileOrder(PkgSeq[q], fo))]) \o early
 
@@ -177,7 +191,8 @@ AllRoots(fo, early) == Flat([q \in 1..Len(PkgSeq) |-> RootsSeq(PkgSeq[q], FileOr
 IdIn(S, x) ==
   LET p == PkgOf(decls, x) IN
   IF p \in DOMAIN S /\ (\E i \in 1..Len(S[p]) : S[p][i] = x) THEN (CHOOSE i \in 1..Len(S[p]) : S[p][i] = x) - 1 ELSE 0 - 1
-RefToks(S, xs) == [q \in 1..Len(xs) |-> <<"ref", PkgOf(decls, xs[q]), xs[q].d, xs[q].m, IdIn(S, xs[q]), Env(xs[q])>>]
+\* (TLCEval: function constructors are lazy values in TLC, every access would evaluate the body again)
+RefToks(S, xs) == TLCEval([q \in 1..Len(xs) |-> <<"ref", PkgOf(decls, xs[q]), xs[q].d, xs[q].m, IdIn(S, xs[q]), Env(xs[q])>>])
 \* a UNIT is one declaration of an archive: [tok, refs]
 InstUnits(S, p, i) ==      \* the instances of declaration i in the order of the package's set (InstanceSet.ForObj)
   IF p \notin DOMAIN S THEN <<>> ELSE
@@ -188,8 +203,8 @@ InstUnits(S, p, i) ==      \* the instances of declaration i in the order of the
 PkgToks(p, S, ford, es, sortImp) ==
   <<[tok |-> <<"pkg", p, 0, 0, 0, ImportList(p, ford, sortImp)>>, refs |-> <<>>]>>
   \o Flat([i \in 1..Len(decls) |-> IF decls[i].pkg = p THEN InstUnits(S, p, i) ELSE <<>>])
-  \o [q \in 1..Len(RootIdxSeq(p, ford)) |->
-        [tok |-> <<"root", p, RootIdxSeq(p, ford)[q], 0, 0, <<>>>>, refs |-> RefToks(S, RootAdds(decls, roots[RootIdxSeq(p, ford)[q]]))]]
+  \o (LET ix == TLCEval(RootIdxSeq(p, ford)) IN
+      TLCEval([q \in 1..Len(ix) |-> [tok |-> <<"root", p, ix[q], 0, 0, <<>>>>, refs |-> RefToks(S, RootAdds(decls, roots[ix[q]]))]]))
   \o (IF p = "m" THEN <<[tok |-> <<"esc", p, 0, 0, 0, es>>, refs |-> <<>>]>> ELSE <<>>)
 \* WriteProgramCode: dead-code elimination over the declarations of all archives.  A declaration of an
 \* instance is selected through its NAME (object and type arguments, dce.Info), never through its
@@ -200,8 +215,9 @@ LiveNames(us, L, n) ==
   LET L2 == L \cup UNION {{NameKey(us[q].refs[r]) : r \in 1..Len(us[q].refs)} :
                             q \in {x \in 1..Len(us) : us[x].tok[1] # "inst" \/ NameKey(us[x].tok) \in L}}
   IN IF L2 = L \/ n = 0 THEN L2 ELSE LiveNames(us, L2, n - 1)
-LinkUnits(us) ==
-  LET L == LiveNames(us, {}, 40) IN
+LinkUnits(us0) ==
+  LET us == TLCEval(us0)
+      L == TLCEval(LiveNames(us, {}, 40)) IN
   Flat([q \in 1..Len(us) |-> IF us[q].tok[1] = "inst" /\ NameKey(us[q].tok) \notin L THEN <<>> ELSE <<us[q].tok>> \o us[q].refs])
 \* WriteProgramCode: the dependencies of the command in a fixed order, the command last
 LinkSeq == LET ps == PkSeq(MainPkgs \ {"m"}) IN Append(ps, "m")
@@ -213,8 +229,8 @@ LinkSeq == LET ps == PkSeq(MainPkgs \ {"m"}) IN Append(ps, "m")
 (* behaviours of the model                                                 *)
 (***************************************************************************)
 RefFo == IF Sw.sortFiles THEN DescSeq(FilesOf("m")) ELSE AscSeq(FilesOf("m"))
-RefSets == SortedRounds(decls, ScanSeq(AllRoots(RefFo, <<>>), EmptySt, PkSeq(MainPkgs)), 40).sets
-RefOut == LET S == RefSets IN
+RefSets == BRounds(ScanSeq(AllRoots(RefFo, <<>>), EmptySt, PkSeq(MainPkgs)), 12).sets
+RefOut == LET S == TLCEval(RefSets) IN
           LinkUnits(Flat([q \in 1..Len(LinkSeq) |-> PkgToks(LinkSeq[q], S, FileOrder(LinkSeq[q], RefFo), <<"u", "v">>, Sw.sortImports)]))
 
 (***************************************************************************)
@@ -225,7 +241,7 @@ RefOut == LET S == RefSets IN
 EarlyArch(early) ==
   LET pk == EarlyPkgs(early)
       rs == Flat([q \in 1..Len(PkgSeq) |-> IF PkgSeq[q] \in pk THEN RootsSeq(PkgSeq[q], FileOrder(PkgSeq[q], <<>>)) ELSE <<>>]) \o early
-      S  == SortedRounds(decls, ScanSeq(rs, EmptySt, PkSeq(pk)), 40).sets
+      S  == TLCEval(BRounds(ScanSeq(rs, EmptySt, PkSeq(pk)), 12).sets)
   IN [p \in pk \ {"e"} |-> PkgToks(p, S, FileOrder(p, <<>>), <<>>, Sw.sortImports)]     \* (m is never among them)
 
 (***************************************************************************)
